@@ -4,6 +4,7 @@ use std::cell::Cell;
 pub mod common;
 pub mod c03;
 pub mod c04;
+pub mod c06;
 
 thread_local! {
     static EXPECT_PANIC: Cell<bool> = const { Cell::new(false) };
@@ -33,6 +34,7 @@ pub fn run(id: &str, tier: Tier) -> i32 {
     match id {
         "C03" => c03::run(tier),
         "C04" => c04::run(tier),
+        "C06" => c06::run(tier),
         _ => {
             eprintln!("MACHINERY: no check for {id}");
             2
@@ -46,6 +48,7 @@ pub fn replay(id: &str, file: &serde_json::Value) -> i32 {
     let f: fn(&serde_json::Value) -> Result<(), Violation> = match id {
         "C03" => c03::replay,
         "C04" => c04::replay,
+        "C06" => c06::replay,
         _ => {
             eprintln!("MACHINERY: no replay for {id}");
             return 2;
